@@ -263,8 +263,20 @@ func c18EnumUnit(c *mon.Ctx, r *mon.Rng, per int) {
 			if dup != lits[i] {
 				c.Count("planted duplicate in another spelling", 1)
 			}
-			if o := lib.Safe(enum.New("@E", dt.Text).Check); o.OK || o.Panic != "" {
+			dupRule := enum.New("@E", dt.Text)
+			if o := lib.Safe(dupRule.Check); o.OK || o.Panic != "" {
 				c.Violate("rule-check", c18RuleCase{dt.Text}, "reject", o.String(), fmt.Sprintf("enum.Check() accepts a rule in which %s and %s are the same member", lits[i], dup))
+			} else {
+				// the same rule object asked again: the answer stays
+				if o2 := lib.Safe(dupRule.Check); o2.OK || o2.Panic != "" {
+					c.Violate("rule-check-twice", c18RuleCase{dt.Text}, "reject", o2.String(), "the second enum.Check() on the same rule object accepts a rule with a duplicate")
+				}
+				if _, o3 := lib.SafeVal(dupRule.Values); o3.OK || o3.Panic != "" {
+					c.Violate("rule-check-twice", c18RuleCase{dt.Text}, "reject", o3.String(), "Values() after a failed Check() on the same rule object succeeds")
+				}
+				if o4 := lib.Safe(func() error { return newSchemaForRule().AddRule("@E", dupRule) }); o4.OK || o4.Panic != "" {
+					c.Violate("rule-check-twice", c18RuleCase{dt.Text}, "reject", o4.String(), "AddRule accepts a rule object whose Check() failed before")
+				}
 			}
 			if o := lib.Safe(func() error { return newSchemaForRule().AddRule("@E", enum.New("@E", dt.Text)) }); o.OK || o.Panic != "" {
 				c.Violate("add-rule", c18RuleCase{dt.Text}, "reject", o.String(), "AddRule accepts an enum rule with a duplicate")
@@ -654,6 +666,19 @@ func init() {
 				var rc c18RuleCase
 				json.Unmarshal(raw, &rc)
 				return lib.Safe(enum.New("@E", rc.Text).Check).Verdict()
+			},
+			"rule-check-twice": func(raw json.RawMessage) string {
+				var rc c18RuleCase
+				json.Unmarshal(raw, &rc)
+				e := enum.New("@E", rc.Text)
+				lib.Safe(e.Check)
+				if o := lib.Safe(e.Check); o.OK || o.Panic != "" {
+					return o.Verdict()
+				}
+				if _, o := lib.SafeVal(e.Values); o.OK || o.Panic != "" {
+					return o.Verdict()
+				}
+				return lib.Safe(func() error { return newSchemaForRule().AddRule("@E", e) }).Verdict()
 			},
 			"add-rule": func(raw json.RawMessage) string {
 				var rc c18RuleCase
